@@ -1,0 +1,20 @@
+//go:build verif
+
+// Contracts for the verification machinery in /verif (comment-only, built only with -tags verif).
+
+package speakerlist
+
+// ---- C04 / C12: the speaker-membership view handed to the layer-2 election ----
+// UsableSpeakers: membership tracking disabled (no memberlist) is reported as such; otherwise exactly the names of the
+// current memberlist members, each with value true
+//@ func (*SpeakerList).UsableSpeakers
+//@   requires sl != nil
+//@   ensures [disabled] sl.ml == nil ==> result.Disabled && result.Nodes == nil
+//@   ensures [enabled] sl.ml != nil ==> !result.Disabled && result.Nodes != nil
+//@   ensures [members] sl.ml != nil ==> (forall x string :: (x in result.Nodes) == (exists k int :: 0 <= k && k < len(sl.ml.Members()) && sl.ml.Members()[k].Name == x))
+//@   ensures [allTrue] sl.ml != nil ==> (forall x string :: (x in result.Nodes) ==> result.Nodes[x])
+//@   modifies fresh map[string]bool
+//@   loop 1 binds n
+//@   loop 1 invariant activeNodes != nil && fresh(activeNodes)
+//@   loop 1 invariant forall x string :: (x in activeNodes) == (exists k int :: 0 <= k && k < iter && sl.ml.Members()[k].Name == x)
+//@   loop 1 invariant forall x string :: (x in activeNodes) ==> activeNodes[x]
